@@ -109,6 +109,33 @@ example : allFrames (run simpleFlow (initStream ⟨100, false⟩) demoHist).2 =
      ⟨10, [], true⟩] := by decide
 example : (run simpleFlow (initStream ⟨100, false⟩) demoHist).1.sender.state = .finished := by decide
 
+/-- the transmission interest the sender reports (`transmission::interest::Provider for DataSender`, the value the
+    connection uses to decide whether the stream is asked to transmit at all) is consistent with what it does: a sender
+    that reports NO interest writes nothing — no STREAM frame, no FIN — whatever the packet number, the capacity and
+    the transmission constraint. (The observers `interest` / `isInflight` / `enqueuedLen` are compared with the real
+    `DataSender` on every op of the in-crate differential run, part `C12_datasender`.) -/
+theorem no_interest_no_frames (ops : FlowOps F) (s : Sender F) (pn cap : Nat) (cr ct : Bool)
+    (h : s.interest ops = 0) : (onTransmit ops s pn cap cr ct).2 = [] := by
+  unfold Sender.interest at h
+  split at h <;> try omega
+  split at h <;> try omega
+  split at h <;> try omega
+  split at h <;> try omega
+  rename_i h1 h2 h3 h4
+  have hl : s.lost = [] := by simpa using h2
+  unfold onTransmit
+  split
+  · rfl
+  · simp only [phaseLost, hl, transmitLost]
+    cases cr <;> simp_all [phaseNew, phaseFin, State.canTransmitFin] <;> (repeat' split) <;> simp_all <;>
+      (simp only [Sender.totalLen] at *; omega)
+
+/-- non-vacuity: a fresh sender has no interest; after a push it has (and a transmit then writes a frame) -/
+example : (initStream (F := SimpleFc) { allowed := 100 }).sender.interest simpleFlow = 0 := by decide
+example : (push (initStream (F := SimpleFc) { allowed := 100 }).sender [1, 2, 3]).interest simpleFlow = 1 ∧
+    (onTransmit simpleFlow (push (initStream (F := SimpleFc) { allowed := 100 }).sender [1, 2, 3]) 0 50 true true).2
+      = [{ off := 0, data := [1, 2, 3], fin := false }] := by decide
+
 end dataSender
 
 /-! ## stream ids (`QuicModel.Stream.OpenIds`) and the close sender (`QuicModel.Conn.CloseSender`) -/
